@@ -45,19 +45,25 @@ theorem setItem_fields (cfg : Cfg) (s : State) (k : Uri) (t : Tmpl) :
 /-! ## construction that regenerates -/
 
 theorem construct_regen {cfg : Cfg} {s : State} {k : Uri} {f : FileRef} {file : File} (hf : s.fs f = some file)
-    (hb : file.broken = false) (hr : needsRegen cfg s k f file) :
+    (hb : file.broken = false) (hl : file.late = false) (hr : needsRegen cfg s k f file) :
     construct cfg s k f = (.ok ⟨s.nextId, k, some f, file.content, s.clock⟩, regenState cfg s k f file) := by
   have hc := construct_cases cfg s k f
   generalize construct cfg s k f = r at hc
   cases hc with
   | nofile hf' => rw [hf] at hf'; cases hf'
   | broken file' hf' hb' _ => rw [hf] at hf'; injection hf' with hf'; subst hf'; rw [hb] at hb'; cases hb'
-  | regen file' hf' _ _ => rw [hf] at hf'; injection hf' with hf'; subst hf'; rfl
-  | reuse file' m hf' hmd hm hle hsrc =>
+  | late file' hf' _ hl' _ => rw [hf] at hf'; injection hf' with hf'; subst hf'; rw [hl] at hl'; cases hl'
+  | regen file' hf' _ _ _ => rw [hf] at hf'; injection hf' with hf'; subst hf'; rfl
+  | lateImport file' m hf' hmd hm hle hml =>
     rw [hf] at hf'; injection hf' with hf'; subst hf'
     rcases hr hmd m hm with h1 | h1
     · omega
-    · exact absurd hsrc h1
+    · rw [hml] at h1; cases h1.1
+  | reuse file' m hf' hmd hm hle hml hsrc =>
+    rw [hf] at hf'; injection hf' with hf'; subst hf'
+    rcases hr hmd m hm with h1 | h1
+    · omega
+    · exact absurd hsrc h1.2
 
 theorem construct_broken {cfg : Cfg} {s : State} {k : Uri} {f : FileRef} {file : File} (hf : s.fs f = some file)
     (hb : file.broken = true) (hr : needsRegen cfg s k f file) :
@@ -67,12 +73,18 @@ theorem construct_broken {cfg : Cfg} {s : State} {k : Uri} {f : FileRef} {file :
   cases hc with
   | nofile hf' => rw [hf] at hf'; cases hf'
   | broken file' hf' hb' _ => rfl
-  | regen file' hf' hb' _ => rw [hf] at hf'; injection hf' with hf'; subst hf'; rw [hb] at hb'; cases hb'
-  | reuse file' m hf' hmd hm hle hsrc =>
+  | late file' hf' hb' _ _ => rw [hf] at hf'; injection hf' with hf'; subst hf'; rw [hb] at hb'; cases hb'
+  | regen file' hf' hb' _ _ => rw [hf] at hf'; injection hf' with hf'; subst hf'; rw [hb] at hb'; cases hb'
+  | lateImport file' m hf' hmd hm hle hml =>
     rw [hf] at hf'; injection hf' with hf'; subst hf'
     rcases hr hmd m hm with h1 | h1
     · omega
-    · exact absurd hsrc h1
+    · rw [hml] at h1; cases h1.1
+  | reuse file' m hf' hmd hm hle hml hsrc =>
+    rw [hf] at hf'; injection hf' with hf'; subst hf'
+    rcases hr hmd m hm with h1 | h1
+    · omega
+    · exact absurd hsrc h1.2
 
 /-- a compile error of `Template.__init__` means: the file is broken and no module file stood in the way -/
 theorem construct_compile_error {cfg : Cfg} {s s' : State} {k : Uri} {f : FileRef}
@@ -87,7 +99,7 @@ theorem construct_compile_error {cfg : Cfg} {s s' : State} {k : Uri} {f : FileRe
 /-! ## ModSync -/
 
 def ModSync (cfg : Cfg) (s : State) : Prop :=
-  cfg.moddir = true → ∀ p ∈ s.coll, p.2.val.file ≠ none → ∃ m, s.mods p.1 = some m ∧ m.time = p.2.val.stamp
+  cfg.moddir = true → ∀ p ∈ s.coll, p.2.val.file ≠ none → ∃ m, s.mods p.1 = some m ∧ m.time = p.2.val.stamp ∧ m.late = false
 
 theorem modsync_sub {cfg : Cfg} {s : State} (h : ModSync cfg s) {c : Coll} (hs : c.Sublist s.coll) :
     ModSync cfg { s with coll := c } := fun hmd p hp hf => h hmd p (hs.subset hp) hf
@@ -108,7 +120,15 @@ theorem modsync_load {cfg : Cfg} {s : State} (h : ModSync cfg s) {k : Uri} (f : 
   | nofile hf => rw [load_err hn hc]; exact modsync_sub (s := { s with nextId := s.nextId + 1 }) h (erase_sublist _ _)
   | broken file hf hb hr =>
     rw [load_err hn hc]; exact modsync_sub (s := { s with nextId := s.nextId + 1 }) h (erase_sublist _ _)
-  | regen file hf hb hr =>
+  | lateImport file m hf hmd hm hle hml =>
+    rw [load_err hn hc]; exact modsync_sub (s := { s with nextId := s.nextId + 1 }) h (erase_sublist _ _)
+  | late file hf hb hl hr =>
+    rw [load_err hn hc]
+    intro hmd p hp hfile
+    obtain ⟨hp1, hp2⟩ := mem_erase.mp hp
+    have := h hmd p hp1 hfile
+    simp only [lateState, hmd, if_true, setMod, hp2, if_false]; exact this
+  | regen file hf hb hl hr =>
     rw [load_ok hn hc]
     intro hmd p hp hfile
     obtain ⟨hfs, hmods, _, _, _⟩ := setItem_fields cfg (regenState cfg s k f file) k ⟨s.nextId, k, some f, file.content, s.clock⟩
@@ -117,13 +137,13 @@ theorem modsync_load {cfg : Cfg} {s : State} (h : ModSync cfg s) {k : Uri} (f : 
     · rw [h1, h2]; simp [regenState, hmd, setMod]
     · have := h hmd p h2 hfile
       simp only [regenState, hmd, if_true, setMod, h1, if_false]; exact this
-  | reuse file m hf hmd' hm hle hsrc =>
+  | reuse file m hf hmd' hm hle hml hsrc =>
     rw [load_ok hn hc]
     intro hmd p hp hfile
     obtain ⟨hfs, hmods, _, _, _⟩ := setItem_fields cfg (reuseState s k f m) k ⟨s.nextId, k, some f, m.content, m.time⟩
     simp only [hmods]
     rcases mem_setItem hp with ⟨h1, h2⟩ | ⟨h1, h2⟩
-    · rw [h1, h2]; exact ⟨m, hm, rfl⟩
+    · rw [h1, h2]; exact ⟨m, hm, rfl, hml⟩
     · exact h hmd p h2 hfile
 
 theorem modsync_check {cfg : Cfg} {s : State} (h : ModSync cfg s) (k : Uri) (t : Tmpl) :
@@ -169,6 +189,7 @@ theorem modsync_step {cfg : Cfg} {s : State} (h : ModSync cfg s) {op : Op} (hop 
   | writeFile d u c => exact h
   | deleteFile d u => exact h
   | breakFile d u => exact h
+  | breakFileLate d u => exact h
   | getTemplate u => rw [step_get_state]; exact modsync_getTemplate h u
   | hasTemplate u => rw [step_has_state]; exact modsync_getTemplate h u
   | putString u c =>
@@ -198,7 +219,7 @@ theorem modsync_final (cfg : Cfg) (h : List Op) (hop : ∀ op ∈ h, noPutTempla
 
 def ModCur (s : State) : Prop :=
   ∀ k m file, s.mods k = some m → s.fs m.src = some file → file.mtime < m.time →
-    file.broken = false ∧ m.content = file.content
+    file.broken = false ∧ m.content = file.content ∧ m.late = file.late
 
 theorem modcur_congr {s s' : State} (hm : s'.mods = s.mods) (hf : s'.fs = s.fs) (h : ModCur s) : ModCur s' := by
   intro k m file h1 h2 h3
@@ -212,8 +233,21 @@ theorem modcur_construct {cfg : Cfg} {s : State} (h : ModCur s) (k : Uri) (f : F
   cases hc with
   | nofile hf => exact modcur_congr rfl rfl h
   | broken file hf hb hr => exact modcur_congr rfl rfl h
-  | reuse file m hf hmd hm hle hsrc => exact modcur_congr rfl rfl h
-  | regen file hf hb hr =>
+  | lateImport file m hf hmd hm hle hml => exact modcur_congr rfl rfl h
+  | reuse file m hf hmd hm hle hml hsrc => exact modcur_congr rfl rfl h
+  | late file hf hb hl hr =>
+    intro k' m file' h1 h2 h3
+    simp only [lateState] at h1 h2
+    split at h1
+    · simp only [setMod] at h1
+      split at h1
+      · injection h1 with h1; subst h1
+        simp only at h2
+        rw [hf] at h2; injection h2 with h2; subst h2
+        exact ⟨hb, rfl, hl.symm⟩
+      · exact h k' m file' h1 h2 h3
+    · exact h k' m file' h1 h2 h3
+  | regen file hf hb hl hr =>
     intro k' m file' h1 h2 h3
     simp only [regenState] at h1 h2
     split at h1
@@ -222,7 +256,7 @@ theorem modcur_construct {cfg : Cfg} {s : State} (h : ModCur s) (k : Uri) (f : F
       · injection h1 with h1; subst h1
         simp only at h2
         rw [hf] at h2; injection h2 with h2; subst h2
-        exact ⟨hb, rfl⟩
+        exact ⟨hb, rfl, hl.symm⟩
       · exact h k' m file' h1 h2 h3
     · exact h k' m file' h1 h2 h3
 
@@ -286,6 +320,7 @@ theorem modcur_step {cfg : Cfg} {s : State} (hi : Inv cfg s) (h : ModCur s) (op 
   | writeFile d u c => exact modcur_setFs hi h _ _ (by intro f hf; injection hf with hf; subst hf; rfl)
   | deleteFile d u => exact modcur_setFs hi h _ _ (by intro f hf; cases hf)
   | breakFile d u => exact modcur_setFs hi h _ _ (by intro f hf; injection hf with hf; subst hf; rfl)
+  | breakFileLate d u => exact modcur_setFs hi h _ _ (by intro f hf; injection hf with hf; subst hf; rfl)
   | getTemplate u => rw [step_get_state]; exact modcur_getTemplate h u
   | hasTemplate u => rw [step_has_state]; exact modcur_getTemplate h u
   | putString u c =>
@@ -322,20 +357,22 @@ theorem construct_ok_current {cfg : Cfg} {s s' : State} {k : Uri} {f : FileRef} 
   have hcc := construct_cases cfg s k f
   rw [hc] at hcc
   cases hcc with
-  | regen file' hf' hb hr =>
+  | regen file' hf' hb hl hr =>
     rw [hf] at hf'; injection hf' with hf'; subst hf'
     exact ⟨rfl, rfl, Or.inl rfl⟩
-  | reuse file' m hf' hmd hmm hle hsrc =>
+  | reuse file' m hf' hmd hmm hle hml hsrc =>
     rw [hf] at hf'; injection hf' with hf'; subst hf'
     refine ⟨rfl, rfl, ?_⟩
     by_cases heq : file.mtime = m.time
     · exact Or.inr ⟨hmd, heq.symm⟩
     · have hlt : file.mtime < m.time := by omega
-      exact Or.inl (hm k m file hmm (by rw [hsrc]; exact hf) hlt).2
+      exact Or.inl (hm k m file hmm (by rw [hsrc]; exact hf) hlt).2.1
 
-/-- …and it cannot fail when the file compiles -/
+/-- …and it cannot fail when the file compiles and imports, unless a module file whose import raises is in the
+way (not older than the source) -/
 theorem construct_ok_of_compiles {cfg : Cfg} {s : State} {k : Uri} {f : FileRef} {file : File}
-    (hf : s.fs f = some file) (hb : file.broken = false) :
+    (hf : s.fs f = some file) (hb : file.broken = false) (hl : file.late = false)
+    (hlate : cfg.moddir = true → ∀ m, s.mods k = some m → m.late = true → m.time < file.mtime) :
     ∃ t s', construct cfg s k f = (.ok t, s') := by
   have hcc := construct_cases cfg s k f
   rcases hc : construct cfg s k f with ⟨r, s'⟩
@@ -343,8 +380,25 @@ theorem construct_ok_of_compiles {cfg : Cfg} {s : State} {k : Uri} {f : FileRef}
   cases hcc with
   | nofile hf' => rw [hf] at hf'; cases hf'
   | broken file' hf' hb' _ => rw [hf] at hf'; injection hf' with hf'; subst hf'; rw [hb] at hb'; cases hb'
-  | regen file' hf' _ _ => exact ⟨_, _, rfl⟩
-  | reuse file' m hf' hmd hmm hle hsrc => exact ⟨_, _, rfl⟩
+  | late file' hf' _ hl' _ => rw [hf] at hf'; injection hf' with hf'; subst hf'; rw [hl] at hl'; cases hl'
+  | regen file' hf' _ _ _ => exact ⟨_, _, rfl⟩
+  | lateImport file' m hf' hmd hmm hle hml =>
+    rw [hf] at hf'; injection hf' with hf'; subst hf'
+    have := hlate hmd m hmm hml; omega
+  | reuse file' m hf' hmd hmm hle hml hsrc => exact ⟨_, _, rfl⟩
+
+/-- an import error of `Template.__init__`: the source is late-breaking and its module was (re)generated now, or a
+module file whose import raises, not older than the source, was imported -/
+theorem construct_late_error {cfg : Cfg} {s s' : State} {k : Uri} {f : FileRef}
+    (hc : construct cfg s k f = (.error .late, s')) :
+    (∃ file, s.fs f = some file ∧ file.broken = false ∧ file.late = true ∧ s' = lateState cfg s k f file) ∨
+    (∃ file m, s.fs f = some file ∧ cfg.moddir = true ∧ s.mods k = some m ∧ file.mtime ≤ m.time ∧ m.late = true ∧
+      s' = { s with nextId := s.nextId + 1 }) := by
+  have hcc := construct_cases cfg s k f
+  rw [hc] at hcc
+  cases hcc with
+  | late file hf hb hl hr => exact Or.inl ⟨file, hf, hb, hl, rfl⟩
+  | lateImport file m hf hmd hm hle hml => exact Or.inr ⟨file, m, hf, hmd, hm, hle, hml, rfl⟩
 
 /-! ## the specification of "what a lookup serves": a cold lookup on the current disk -/
 
@@ -352,6 +406,7 @@ inductive View
   | content (c : Content)
   | missing
   | broken
+  | late
   | other
 deriving DecidableEq, Repr
 
@@ -362,13 +417,14 @@ def specAt (ndirs : Nat) (fs : FileRef → Option File) (u : Uri) : View :=
   | some d =>
     match fs (d, u) with
     | none => .missing
-    | some file => if file.broken then .broken else .content file.content
+    | some file => if file.broken then .broken else if file.late then .late else .content file.content
 
 def viewGet : Except Exc Tmpl → View
   | .ok t => .content t.content
   | .error .topLevel => .missing
   | .error .lookup => .missing
   | .error .compile => .broken
+  | .error .late => .late
   | .error .os => .other
 
 /-- content-level view of an output: identities are forgotten, the two lookup exceptions are identified -/
@@ -383,19 +439,22 @@ def specOut (ndirs : Nat) (fs : FileRef → Option File) : Op → Out
     | .content c => .ok 0 c
     | .missing => .exc .lookup
     | .broken => .exc .compile
+    | .late => .exc .late
     | .other => .exc .os
   | .hasTemplate u =>
     match specAt ndirs fs u with
     | .content _ => .has true
     | .missing => .has false
     | .broken => .exc .compile
+    | .late => .exc .late
     | .other => .exc .os
   | _ => .none
 
 def fsStep (fs : FileRef → Option File) (clk : Nat) : Op → (FileRef → Option File)
-  | .writeFile d u c => setFs fs (d, u) (some ⟨c, clk, false⟩)
+  | .writeFile d u c => setFs fs (d, u) (some ⟨c, clk, false, false⟩)
   | .deleteFile d u => setFs fs (d, u) none
-  | .breakFile d u => setFs fs (d, u) (some ⟨0, clk, true⟩)
+  | .breakFile d u => setFs fs (d, u) (some ⟨0, clk, true, false⟩)
+  | .breakFileLate d u => setFs fs (d, u) (some ⟨0, clk, false, true⟩)
   | _ => fs
 
 def clkStep (clk : Nat) : Op → Nat
@@ -413,9 +472,9 @@ structure Cur (home : Uri → Dir) (cfg : Cfg) (s : State) : Prop where
   files_home : ∀ d k file, s.fs (d, k) = some file → d = home k
   entry : ∀ p ∈ s.coll, p.2.val.file = some (home p.1, p.1) ∧ home p.1 < cfg.ndirs ∧
     ∀ file, s.fs (home p.1, p.1) = some file → file.mtime ≤ p.2.val.stamp →
-      file.broken = false ∧ p.2.val.content = file.content
+      file.broken = false ∧ file.late = false ∧ p.2.val.content = file.content
   modf : ∀ k m, s.mods k = some m → ∀ file, s.fs (home k, k) = some file → file.mtime ≤ m.time →
-    file.broken = false ∧ m.content = file.content
+    file.broken = false ∧ m.late = file.late ∧ m.content = file.content
 
 /-- everything compiled so far was compiled in an earlier second -/
 def Older (s : State) : Prop :=
@@ -437,7 +496,7 @@ theorem specAt_of_home {home : Uri → Dir} {cfg : Cfg} {s : State} (h : Cur hom
     specAt cfg.ndirs s.fs u =
       match s.fs (home u, u) with
       | none => .missing
-      | some file => if file.broken then .broken else .content file.content := by
+      | some file => if file.broken then .broken else if file.late then .late else .content file.content := by
   unfold specAt
   cases hfs : s.fs (home u, u) with
   | none =>
@@ -473,9 +532,30 @@ theorem cur_load {home : Uri → Dir} {cfg : Cfg} {s : State} (h : Cur home cfg 
     rw [load_err hn hc]
     refine ⟨by simp [viewGet, hf, hb],
       cur_sub (s := { s with nextId := s.nextId + 1 }) ⟨h.files_home, h.entry, h.modf⟩ (erase_sublist _ _)⟩
-  | regen file hf hb hr =>
+  | lateImport file m hf hmd hm hle hml =>
+    rw [load_err hn hc]
+    obtain ⟨hb, hlate, _⟩ := h.modf k m hm file hf hle
+    rw [hml] at hlate
+    refine ⟨by simp [viewGet, hf, hb, ← hlate],
+      cur_sub (s := { s with nextId := s.nextId + 1 }) ⟨h.files_home, h.entry, h.modf⟩ (erase_sublist _ _)⟩
+  | late file hf hb hl hr =>
+    rw [load_err hn hc]
+    refine ⟨by simp [viewGet, hf, hb, hl], ?_⟩
+    refine cur_sub (s := lateState cfg s k (home k, k) file) ⟨h.files_home, h.entry, ?_⟩ (erase_sublist _ _)
+    intro k' m hm file' hf' hle
+    simp only [lateState] at hm hf'
+    split at hm
+    · simp only [setMod] at hm
+      split at hm
+      · rename_i hk; subst hk
+        injection hm with hm; subst hm
+        rw [hf] at hf'; injection hf' with hf'; subst hf'
+        exact ⟨hb, hl.symm, rfl⟩
+      · exact h.modf k' m hm file' hf' hle
+    · exact h.modf k' m hm file' hf' hle
+  | regen file hf hb hl hr =>
     rw [load_ok hn hc]
-    refine ⟨by simp [viewGet, hf, hb], ?_⟩
+    refine ⟨by simp [viewGet, hf, hb, hl], ?_⟩
     obtain ⟨hfs, hmods, _, _, _⟩ := setItem_fields cfg (regenState cfg s k (home k, k) file) k
       ⟨s.nextId, k, some (home k, k), file.content, s.clock⟩
     refine ⟨by rw [hfs]; exact h.files_home, ?_, ?_⟩
@@ -487,7 +567,7 @@ theorem cur_load {home : Uri → Dir} {cfg : Cfg} {s : State} (h : Cur home cfg 
         intro file' hf' _
         simp only [regenState] at hf'
         rw [hf] at hf'; injection hf' with hf'; subst hf'
-        exact ⟨hb, rfl⟩
+        exact ⟨hb, hl, rfl⟩
       · exact h.entry p h2
     · intro k' m hm file' hf' hle
       rw [hmods] at hm; rw [hfs] at hf'
@@ -498,13 +578,14 @@ theorem cur_load {home : Uri → Dir} {cfg : Cfg} {s : State} (h : Cur home cfg 
         · rename_i hk; subst hk
           injection hm with hm; subst hm
           rw [hf] at hf'; injection hf' with hf'; subst hf'
-          exact ⟨hb, rfl⟩
+          exact ⟨hb, hl.symm, rfl⟩
         · exact h.modf k' m hm file' hf' hle
       · exact h.modf k' m hm file' hf' hle
-  | reuse file m hf hmd hm hle hsrc =>
+  | reuse file m hf hmd hm hle hml hsrc =>
     rw [load_ok hn hc]
-    obtain ⟨hb, hcont⟩ := h.modf k m hm file hf hle
-    refine ⟨by simp [viewGet, hf, hb, hcont], ?_⟩
+    obtain ⟨hb, hlate, hcont⟩ := h.modf k m hm file hf hle
+    rw [hml] at hlate
+    refine ⟨by simp [viewGet, hf, hb, ← hlate, hcont], ?_⟩
     obtain ⟨hfs, hmods, _, _, _⟩ := setItem_fields cfg (reuseState s k (home k, k) m) k
       ⟨s.nextId, k, some (home k, k), m.content, m.time⟩
     refine ⟨by rw [hfs]; exact h.files_home, ?_, by rw [hmods, hfs]; exact h.modf⟩
@@ -515,7 +596,9 @@ theorem cur_load {home : Uri → Dir} {cfg : Cfg} {s : State} (h : Cur home cfg 
       refine ⟨rfl, hlt, ?_⟩
       intro file' hf' hle'
       simp only [reuseState] at hf'
-      exact h.modf k m hm file' hf' hle'
+      obtain ⟨a1, a2, a3⟩ := h.modf k m hm file' hf' hle'
+      rw [hml] at a2
+      exact ⟨a1, a2.symm, a3⟩
     · exact h.entry p h2
 
 end MakoModel.C14
